@@ -3,12 +3,15 @@
 (* every line of the NDJSON file named by CASES is one case (input bytes plus   *)
 (* the library's verdict / output, recorded by harness/c/wirecase.c); TLC        *)
 (* evaluates the specification's operator on the input and compares.            *)
-EXTENDS Wire, MatchOps, Json, IOUtils, TLC
+EXTENDS Wire, MatchOps, ObjectTreeOps, PendingCallOps, Json, IOUtils, TLC
 
 Log == ndJsonDeserialize(IOEnv.CASES)
 VARIABLE x
 
 B2I(v) == IF v THEN 1 ELSE 0
+\* known-defect deviations tolerated in this run (file named by VERIF_DEVS, one {"dev": name} per line)
+DevSet == LET d == ndJsonDeserialize(IOEnv.VERIF_DEVS) IN {d[i].dev : i \in 1..Len(d)}
+SetOfSeq(sq) == {sq[i] : i \in 1..Len(sq)}
 
 \* ---- grammar predicates (C16) ----
 SynExpected(c) ==
@@ -49,7 +52,79 @@ StepsOK(c, k, seen, dead) ==
        /\ StepsOK(c, k + 1, Len(fr.out), fr.corrupt)
 ChunkOK(c) == StepsOK(c, 1, 0, FALSE)
 
-CaseOK(c) == CASE c.k = "syn" -> SynOK(c) [] c.k = "dem" -> DemOK(c) [] c.k = "chunk" -> ChunkOK(c)
+\* ---- header edits (C12) ----
+\* op: [f |-> "D"|"S"|"P"|"I"|"M"|"E"|"C"|"R"|"U", del |-> BOOLEAN, v |-> bytes]
+EditApply(st, op) ==
+  CASE op.f = "D" -> [st EXCEPT !.m.dst = IF op.del THEN <<>> ELSE op.v]
+    [] op.f = "S" -> [st EXCEPT !.m.snd = IF op.del THEN <<>> ELSE op.v]
+    [] op.f = "P" -> [st EXCEPT !.m.path = IF op.del THEN <<>> ELSE op.v]
+    [] op.f = "I" -> [st EXCEPT !.m.ifc = IF op.del THEN <<>> ELSE op.v]
+    [] op.f = "M" -> [st EXCEPT !.m.mem = IF op.del THEN <<>> ELSE op.v]
+    [] op.f = "E" -> [st EXCEPT !.m.err = IF op.del THEN <<>> ELSE op.v]
+    [] op.f = "C" -> [st EXCEPT !.m.ci = IF op.del THEN <<>> ELSE op.v]
+    [] op.f = "R" -> [st EXCEPT !.m.rs = op.v]
+    [] op.f = "U" -> [st EXCEPT !.unk = <<>>]
+MandatoryOf(m) == CASE m.ty = 1 -> m.path # <<>> /\ m.mem # <<>>
+                    [] m.ty = 2 -> m.rs # <<0,0,0,0>>
+                    [] m.ty = 3 -> m.err # <<>> /\ m.rs # <<0,0,0,0>>
+                    [] m.ty = 4 -> m.path # <<>> /\ m.ifc # <<>> /\ m.mem # <<>>
+                    [] OTHER -> TRUE
+RECURSIVE EditSteps(_,_,_)
+EditSteps(c, k, st) ==
+  IF k > Len(c.steps) THEN TRUE
+  ELSE LET exp == EditApply(st, c.ops[k])
+           got == MessageDecX(c.steps[k].bytes, 0, FALSE) IN
+       /\ c.steps[k].ok = 1
+       /\ got.ok /\ got.m = exp.m /\ got.unk = exp.unk          \* serialised form well-formed and says the same
+       /\ c.steps[k].m = exp.m                                   \* getters read back as set, nothing else changed
+       /\ (MandatoryOf(exp.m) => MessageValid(c.steps[k].bytes, 0)) \* fully valid while mandatory fields are present
+       /\ EditSteps(c, k + 1, exp)
+EditOK(c) == LET d == MessageDecX(c.b, 0, TRUE) IN
+             /\ d.ok /\ c.base = 1
+             /\ EditSteps(c, 1, [m |-> [d.m EXCEPT !.ser = <<77,0,0,0>>], unk |-> d.unk])
+
+\* ---- construction programs (C02) ----
+\* c.want: the abstract message of the program (written down by the generator, not by libdbus); c.bytes: what the
+\* library serialised; c.m / c.copy / c.dm: read back through the iterators from the built message, from its copy,
+\* and from the message obtained by parsing c.bytes again; c.re: that message serialised once more;
+\* c.be: the generator's own big-endian encoding of the same program, c.bem / c.bere: what the library read from it
+\* and how it serialised it (forces the byte-order conversion).
+BuildOK(c) ==
+  LET d == MessageDecX(c.bytes, 0, TRUE)
+      e == MessageDecX(c.bere, 0, TRUE) IN
+  /\ c.built = 1
+  /\ d.ok /\ d.m = c.want                          \* valid wire format that says what was built
+  /\ c.m = c.want /\ c.dem = 1 /\ c.dm = c.want     \* read-back and parse-back
+  /\ c.re = c.bytes                                  \* byte-identical re-serialisation
+  /\ c.copy = [c.want EXCEPT !.ser = <<0,0,0,0>>]    \* copy: equal, serial zero
+  /\ MessageDecX(c.be, 0, TRUE).ok /\ MessageDecX(c.be, 0, TRUE).m = c.want   \* (sanity of the generator's encoder)
+  /\ c.beacc = 1 /\ c.bem = c.want                  \* other byte order: no value changes
+  /\ e.ok /\ e.m = c.want
+
+\* ---- object-path tree histories (C20) ----
+RECURSIVE OReplay(_,_,_)
+OReplay(cmds, k, reg) ==
+  IF k > Len(cmds) THEN TRUE
+  ELSE LET cm == cmds[k] IN
+    CASE cm.k = "reg" -> LET r == Register(reg, cm.p, cm.id, cm.fb = 1) IN
+                           cm.ok = B2I(r.ok) /\ cm.err = r.err /\ OReplay(cmds, k + 1, r.reg)
+      [] cm.k = "unreg" -> cm.ok = 1 /\ OReplay(cmds, k + 1, Unregister(reg, cm.p))
+      [] cm.k = "ocall" -> LET r == Call(reg, cm.p, SetOfSeq(cm.H)) IN
+                             /\ cm.invoked = r.invoked /\ cm.by = r.by
+                             /\ \/ cm.err = r.err
+                                \* KNOWN DEFECT UnknownObjectNeverSent: the tree's root node always counts as a match
+                                \/ /\ "UnknownObjectNeverSent" \in DevSet
+                                   /\ r.err = S_org_freedesktop_DBus_Error_UnknownObject
+                                   /\ cm.err = S_org_freedesktop_DBus_Error_UnknownMethod
+                             /\ OReplay(cmds, k + 1, reg)
+      [] cm.k = "children" -> /\ SetOfSeq(cm.kids) = Children(reg, cm.p) /\ Len(cm.kids) = Cardinality(Children(reg, cm.p))
+                              /\ OReplay(cmds, k + 1, reg)
+OTreeOK(c) == OReplay(c.cmds, 1, <<>>)
+
+\* ---- pending-call histories (C17) ----
+PCallOK(c) == PReplay(c.cmds, 1, PInit, DevSet)
+
+CaseOK(c) == CASE c.k = "otree" -> OTreeOK(c) [] c.k = "pcall" -> PCallOK(c) [] c.k = "build" -> BuildOK(c) [] c.k = "edit" -> EditOK(c) [] c.k = "syn" -> SynOK(c) [] c.k = "dem" -> DemOK(c) [] c.k = "chunk" -> ChunkOK(c)
 BadCases == {i \in 1..Len(Log) : ~CaseOK(Log[i])}
 \* evaluated in Next (worker thread: honours -Xss), not in Init (main thread)
 Init == x = 0
